@@ -116,11 +116,26 @@ pub fn validate_tree(ctx: &mut Ctx, pfx: &str, lang: &Lang, tree: &Tree, text: &
         }
         let sp = text.point_of(x.start);
         let ep = text.point_of(x.end);
+        // known deviation: a zero-width token produced exactly at the first byte of a later included range gets that
+        // byte but the column of the previous range's end (mark_end moves the token back, the byte offset does not follow)
+        let zw_at_range_start = |b: usize| -> bool {
+            // ... and so does everything after it on the same row
+            ranges
+                .map(|r| {
+                    r.iter().skip(1).any(|g| {
+                        let gb = g.start_byte;
+                        gb <= b && text.point_of(gb).row == text.point_of(b).row && xt.nodes.iter().any(|y| y.start == gb && y.end == gb && y.children.is_empty())
+                    })
+                })
+                .unwrap_or(false)
+        };
         if (sp.row, sp.column) != x.sp {
-            ctx.fail(format!("{pfx}:point:start"), format!("expected start point {:?}; {}", (sp.row, sp.column), ctxmsg(i)));
+            let sfx = if zw_at_range_start(x.start) { ":zero_width_token_at_range_start" } else { "" };
+            ctx.fail(format!("{pfx}:point:start{sfx}"), format!("expected start point {:?}; {}", (sp.row, sp.column), ctxmsg(i)));
         }
         if (ep.row, ep.column) != x.ep {
-            ctx.fail(format!("{pfx}:point:end"), format!("expected end point {:?}; {}", (ep.row, ep.column), ctxmsg(i)));
+            let sfx = if zw_at_range_start(x.end) { ":zero_width_token_at_range_start" } else { "" };
+            ctx.fail(format!("{pfx}:point:end{sfx}"), format!("expected end point {:?}; {}", (ep.row, ep.column), ctxmsg(i)));
         }
         // item 3: children ordered, disjoint, contained
         let mut prev_end = x.start;
